@@ -26,6 +26,7 @@ RULE = (
     "correlation rule placed before one of its (transitive) referents in at least one permutation "
     "(every set with a correlation rule)."
 )
+RULE += (" " + 'References by id are also spelled in upper case, braced and without dashes; a set whose references all resolve must load (a load error needs a dangling reference).')
 ASSUMPTIONS = [
     "queries are compared as strings of the shipped TextQueryTestBackend (isolation, not semantics)",
     "rules referenced both with and without generate are not asserted (unspecified)",
